@@ -57,20 +57,35 @@ class Lock:
 # --------------------------------------------------------------------------------------
 # stage 1: translate /repo/src -> coq/Gen
 # --------------------------------------------------------------------------------------
-def stage_translate(st):
+def stage_translate(st, prop=None):
+    """returns True when every generated file the property's theorems depend on was regenerated from the source"""
     gen = os.path.join(COQ, "Gen")
     code, out = run([sys.executable, os.path.join(ROOT, "translate", "avt2coq.py"),
                      os.path.join(REPO, "src"), gen], timeout=120)
     st["translate_output"] = out.strip()[-2000:]
-    st["translate_ok"] = code == 0
-    if code != 0:
-        # fall back to the pinned tables so that the model still builds and the search for a
+    pinned = os.path.join(COQ, "GenPinned")
+    failed = []
+    if code == 3:
+        # some translator units did not understand the source: only their files fall back to the pinned copies
+        for l in out.splitlines():
+            if l.startswith("FAILED-FILES:"):
+                failed = l.split(":", 1)[1].split()
+    elif code != 0:
+        failed = [n for n in os.listdir(pinned) if n.endswith(".v")]
+    for n in failed:
+        # fall back to the pinned file so that the model still builds and the search for a
         # failing input can run against the implementation
-        pinned = os.path.join(COQ, "GenPinned")
-        for n in os.listdir(pinned):
-            src, dst = os.path.join(pinned, n), os.path.join(gen, n)
-            if n.endswith(".v") and (not os.path.exists(dst) or open(src).read() != open(dst).read()):
-                shutil.copyfile(src, dst)
+        src, dst = os.path.join(pinned, n), os.path.join(gen, n)
+        if os.path.exists(src) and (not os.path.exists(dst) or open(src).read() != open(dst).read()):
+            shutil.copyfile(src, dst)
+    st["translate_failed_files"] = failed
+    relevant = failed
+    if failed and prop and os.path.exists(os.path.join(COQ, "Properties/%s.v" % prop)):
+        ensure_makefile()
+        cone = set(dep_cone("Properties/%s.v" % prop))
+        relevant = [n for n in failed if "Gen/" + n in cone]
+    st["translate_failed_relevant"] = relevant
+    st["translate_ok"] = not relevant
     # is the generated table set identical to the pinned one? (informational)
     diff = []
     pinned = os.path.join(COQ, "GenPinned")
@@ -80,7 +95,7 @@ def stage_translate(st):
             if n.endswith(".v") and (not os.path.exists(b) or open(a).read() != open(b).read()):
                 diff.append(n)
     st["gen_differs_from_pinned"] = diff
-    return code == 0
+    return not relevant
 
 
 # --------------------------------------------------------------------------------------
@@ -644,7 +659,7 @@ def main(argv):
     st = {"property": prop, "tier": tier, "seed": seed}
     res = Results()
     with Lock():
-        tr_ok = stage_translate(st)
+        tr_ok = stage_translate(st, prop)
         pr_ok = stage_proofs(prop, st, thorough=(tier == "thorough"))
         b_ok = stage_build(st)
     if not b_ok:
@@ -819,6 +834,15 @@ def write_evidence(prop, tier, seed, st, res, t_start, violations, known, n_oras
         "op_distribution": res.stats.get("counts", {}),
         "generator_distribution": st.get("distribution", {}),
         "sweep_cells": int(res.stats.get("sweep_cells", 0)),
+        "vsweep": ({"feeds": int(res.stats.get("counts", {}).get("vsweep_feeds", 0)),
+                    "runs": int(res.stats.get("counts", {}).get("vsweep_runs", 0)),
+                    "trace_cases": int(res.stats.get("counts", {}).get("vsweep_trace_cases", 0)),
+                    "rule": "every Unicode scalar value after each of 10 prefixes, fed three ways (one feed_str / two feed_str calls / feed() per "
+                            "character) into a fresh 4x2 terminal: the ways must agree and none may panic (decided on the implementation); the "
+                            "signature (dump + text + line count) is run-length encoded over the scalars and every value below U+0100 plus both "
+                            "ends of every run above is re-run as a trace case (step-wise correspondence + all statements) and, where printable, "
+                            "as a C09 text case"}
+                   if res.stats.get("counts", {}).get("vsweep_feeds") else None),
         "exhaustive": bool(res.stats.get("sweep_cells", 0)) and cfg.get("exhaustive_sweep", False),
         "translate_ok": st.get("translate_ok"),
         "fingerprints_changed": st.get("fingerprints_changed"),
